@@ -198,10 +198,12 @@ template <typename... Args, typename>
 inline void FutureContext<T, M>::set_value(Args&&... args) {
   // 构造并设置value
   new (pointer()) ValueType(::std::forward<Args>(args)...);
+  BABYLON_VERIF_POINT("fut:value_constructed");
   // 原子发布数据：
   // 1、获取当前注册的回调链
   // 2、标记后续不再接受回调注册
   auto head = seal();
+  BABYLON_VERIF_POINT("fut:sealed");
   // 唤醒阻塞等待者
   auto waiter_num =
       _futex.value().exchange(READY_MASK, ::std::memory_order_release);
@@ -269,10 +271,12 @@ inline void FutureContext<T, M>::on_finish(C&& callback) noexcept {
 
   while (true) {
     node->next = head;
+    BABYLON_VERIF_POINT("fut:on_finish_before_cas");
     if (_head.compare_exchange_weak(head, node, ::std::memory_order_acq_rel)) {
       break;
     }
     if (is_sealed(head)) {
+      BABYLON_VERIF_POINT("fut:on_finish_lost_to_sealed");
       node->function();
       delete node;
       break;
@@ -332,6 +336,7 @@ FutureContext<T, M>::pointer() noexcept {
 template <typename T, typename M>
 ABSL_ATTRIBUTE_NOINLINE void FutureContext<T, M>::wait_slow() noexcept {
   auto value = _futex.value().fetch_add(1, ::std::memory_order_acquire) + 1;
+  BABYLON_VERIF_POINT("fut:waiter_registered");
   while (!(value & READY_MASK)) {
     _futex.wait(value, nullptr);
     value = _futex.value().load(::std::memory_order_acquire);
@@ -349,6 +354,7 @@ ABSL_ATTRIBUTE_NOINLINE bool FutureContext<T, M>::wait_for_slow(
   until_ns += spec.tv_nsec + timeout_ns;
 
   auto value = _futex.value().fetch_add(1, ::std::memory_order_acquire) + 1;
+  BABYLON_VERIF_POINT("fut:waiter_registered");
   while (!(value & READY_MASK)) {
     spec.tv_sec = timeout_ns / (1000 * 1000 * 1000);
     spec.tv_nsec = timeout_ns % (1000 * 1000 * 1000);
